@@ -297,8 +297,24 @@ def lemmas():
                     for x in ast.walk(t):
                         if isinstance(x, ast.Attribute) and x.attr == "_last_item":
                             writers.add(st.name)
-    out.append(Obligation("lemma[frame: the last-item bookkeeping is written only inside the queue's own critical sections (_init, _put, _get) - a write anywhere else is not atomic with the enqueue / dequeue it belongs to]",
-                          "lemma", [], z3.BoolVal(srq is not None and writers <= {"_init", "_put", "_get"}), ",".join(sorted(writers - {"_init", "_put", "_get"})), "SkipRepeatsQueue"))
+    # a private helper that does the write is fine as long as every call of it sits in one of the three (or in another such
+    # helper): the write still happens inside the queue's critical section
+    allowed = {"_init", "_put", "_get"}
+    methods = {st.name: st for st in (srq.body if srq is not None else []) if isinstance(st, (ast.FunctionDef, ast.AsyncFunctionDef))}
+    callers = {}
+    for mname, mnode in methods.items():
+        for n in ast.walk(mnode):
+            if isinstance(n, ast.Call) and isinstance(n.func, ast.Attribute) and isinstance(n.func.value, ast.Name) and n.func.value.id == "self" and n.func.attr in methods:
+                callers.setdefault(n.func.attr, set()).add(mname)
+    changed = True
+    while changed:
+        changed = False
+        for w in sorted(writers - allowed):
+            if w.startswith("_") and callers.get(w) and callers[w] <= allowed:
+                allowed.add(w)
+                changed = True
+    out.append(Obligation("lemma[frame: the last-item bookkeeping is written only inside the queue's own critical sections (_init, _put, _get, or a private helper called from nowhere else) - a write anywhere else is not atomic with the enqueue / dequeue it belongs to]",
+                          "lemma", [], z3.BoolVal(srq is not None and writers <= allowed), ",".join(sorted(writers - allowed)), "SkipRepeatsQueue"))
     # (b) nothing outside bricks.py reaches into a queue's internals (its deque, mutex, conditions, task counter, last item):
     # items enter and leave the observer's queue only through put / get, so the bookkeeping always matches the deque
     import os
